@@ -471,8 +471,15 @@ WalkTraceContract(e) ==
                                        LET c == e.kids[m][j] IN Cnt(c) = 0 \/ First(c) > First(m)}
         stray == {m \in 1..n : Cnt(m) > 0 /\ m \notin reach}
         missed == IF ~e.full THEN {} ELSE {m \in reach : Cnt(m) = 0}
+        \* expansions (pops of an unexpanded stack entry): a node is pushed at most once per incoming edge
+        \* (argument position of a parent), the root once; so are its expansions
+        CntE(m) == Cardinality({i \in 1..Len(e.exps) : e.exps[i] = m})
+        InEdges(m) == LET c == SumInts([p \in 1..n |-> Cardinality({j \in 1..Len(e.kids[p]) : e.kids[p][j] = m})])
+                      IN  IF m = e.root THEN c + 1 ELSE c
+        reexp == IF ~e.chk_exp THEN {} ELSE {m \in 1..n : CntE(m) > e.K * InEdges(m)}
     IN  IF e.res # "ok" THEN Verdict(<<"operation_failed">>, <<>>, -1)
         ELSE Verdict(Fl("each_node_visited_at_most_K_times", over = {}) \o
+                     Fl("each_node_expanded_at_most_once_per_incoming_edge", reexp = {}) \o
                      Fl("children_computed_before_parent", early = {}) \o
                      Fl("only_reachable_nodes_visited", stray = {}) \o
                      Fl("every_reachable_node_visited", missed = {}), <<>>,
@@ -482,7 +489,8 @@ WalkTraceContract(e) ==
    K = allowed callbacks per distinct node, res = "ok" or the exception class *)
 ScaleContract(e) ==
     Verdict(Fl("succeeds_on_deep_or_shared_input", e.res = "ok") \o
-            Fl("work_linear_in_dag_size", e.res # "ok" \/ e.callbacks <= e.K * e.nodes + e.slack), <<>>, -1)
+            Fl("work_linear_in_dag_size", e.res # "ok" \/ e.callbacks <= e.K * e.nodes + e.slack) \o
+            Fl("pushes_bounded_by_edges", e.res # "ok" \/ e.exp <= e.K * (e.edges + 1) + e.slack), <<>>, -1)
 
 \* ------------------------------------------------------------------ C14 / C15
 (***************************************************************************)
